@@ -60,6 +60,7 @@ def prepare(eng, qualname, variant=None, label=None, only=None):
         info['reason'] = res.get('reason', '')
         return out
     info['paths'] = res.get('paths')
+    info['visited_lines'] = sorted(eng.visited_lines)
     info['calls_by_contract'] = res.get('called')
     info['inlined'] = res.get('inlined')
     pend = res['obligations']
